@@ -3,6 +3,7 @@ import MlModel.Lemmas.Piter2Frame
 import MlModel.Lemmas.Piter2Live
 import MlModel.Lemmas.Piter2Final
 import MlModel.Lemmas.Piter2Data
+import MlModel.Lemmas.Piter2DataEq
 /-!
 # C13, the two-level composition `piter(iterator_fn, input_iterators=[i_1 … i_n], max_parallism=P)`
 
@@ -51,9 +52,14 @@ pass-through `fwd`):
   from the input queue; the input queue's `produced` is exactly what the first-level tasks have put, which is — in
   order, without repetition — part of the prefix of its input the task has pulled; everything taken out of the input
   queue is, exactly once, pulled by a second-level task / on its way to one (result of the running `get_batch`, in hand)
-  / in the shared cache / dropped by a raising `get_batch`.  Missing for the full statement: the composition of the
-  links into ONE multiset statement about the caller's values, and equality instead of inclusion at the two producer
-  sides in runs without failure / early stop (with both queues, the cache and every hand empty at the end).
+  / in the shared cache / dropped by a raising `get_batch`.
+* `C13_two_second_level_exact`, `C13_two_first_level_exact` (`Lemmas/Piter2DataEq.lean`) — the two inclusions are
+  EQUALITIES while the task's output queue has neither failed nor been stopped: a producer gives up the value in its
+  hand only when `enqueue_done` holds, which — without failure / stop request — cannot happen while a producer is
+  inside `put` (producer counting of `Queue.Live`).
+  Missing for the full statement: the composition of the links into ONE multiset statement about the caller's values
+  (it needs both queues, the cache and every hand EMPTY at the end of a run without failure / early stop, and
+  `pulled = all of the input` for every first-level task).
 
 NOT proved (full statements, kept visible):
 * conservation across both levels: `theorem C13_two_multiset : Reachable F c0 c → c.allDone → delivered outputs of the
@@ -424,6 +430,38 @@ theorem C13_two_first_level_exactly_once_partial {cap1 cap2 bm1 bm2 mw : Nat} {n
   split at this
   · rw [this]; exact List.nil_prefix
   · exact ⟨_, this⟩
+
+/-- **second level, nothing is dropped while the output queue is neither failed nor stopped** (every schedule, both
+kinds of `iterator_fn`): in every reachable configuration in which `Q2._exception` is unset and `Q2` has no stop request,
+for every second-level task: what it has put into the output queue ++ the output in its hand ++ the outputs it still
+holds pending = `iterator_fn`'s outputs over ALL the values it pulled from the input queue, in order — exactly once
+each. -/
+theorem C13_two_second_level_exact {cap1 cap2 bm1 bm2 mw : Nat} {ns : Option Nat} {fwd ff : Bool}
+    {inputs : List InSpec} {gens : List Nat} {c : Piter2.Cfg}
+    (h : Reachable F (initF cap1 cap2 bm1 bm2 mw ns fwd ff inputs gens) c) {t : Th} (ht : t ∈ c.ths)
+    (hr : t.role = .l2) (hexc : c.s2.exc = none) (hstop : c.s2.stopRequested = false) :
+    t.emitted ++ inflight t ++ t.pend = t.pulled.flatMap (Fp F) := by
+  have hg0 := good_initF cap1 cap2 bm1 bm2 mw ns fwd ff inputs gens
+  have h0 : L2Eq F (initF cap1 cap2 bm1 bm2 mw ns fwd ff inputs gens) := by
+    intro u hu _
+    simp only [initF, Piter2.init, List.mem_cons, List.mem_append, List.mem_map] at hu
+    rcases hu with rfl | ⟨i, _, rfl⟩ | ⟨g, _, rfl⟩ <;> simp [mkCons, mkL1, mkL2, inflight, Queue.putPc]
+  exact (l2eq_reachable h hg0 h0 t ht hr).2 ⟨hexc, hstop⟩
+
+/-- **first level, nothing is dropped while the input queue is neither failed nor stopped**: in every reachable
+configuration in which `Q1._exception` is unset and `Q1` has no stop request (no upstream stop yet), for every
+first-level task: what it has put into the input queue ++ the value in its hand = what it pulled from its input. -/
+theorem C13_two_first_level_exact {cap1 cap2 bm1 bm2 mw : Nat} {ns : Option Nat} {fwd ff : Bool}
+    {inputs : List InSpec} {gens : List Nat} {c : Piter2.Cfg}
+    (h : Reachable F (initF cap1 cap2 bm1 bm2 mw ns fwd ff inputs gens) c) {t : Th} (ht : t ∈ c.ths)
+    (hr : t.role = .l1) (hexc : c.s1.exc = none) (hstop : c.s1.stopRequested = false) :
+    t.emitted ++ inflight1 t = t.pulled := by
+  have hg0 := good_initF cap1 cap2 bm1 bm2 mw ns fwd ff inputs gens
+  have h0 : L1Eq (initF cap1 cap2 bm1 bm2 mw ns fwd ff inputs gens) := by
+    intro u hu _ _
+    simp only [initF, Piter2.init, List.mem_cons, List.mem_append, List.mem_map] at hu
+    rcases hu with rfl | ⟨i, _, rfl⟩ | ⟨g, _, rfl⟩ <;> simp [mkCons, mkL1, mkL2, inflight1, Queue.putPc]
+  exact l1eq_reachable h hg0 h0 t ht hr ⟨hexc, hstop⟩
 
 /-- test (by `decide`), non-vacuity of `C13_two_no_deadlock` and `C13_two_stuck_all_parked`: two inputs, one
 `iterator_fn` task, FIFO pool with 3 workers, both queues of capacity 1 — a complete run (100 steps) ends in a
